@@ -172,6 +172,21 @@ def run(chk):
                     sel.append(a[0])
                     break
         want.append(sel)
+    # alternatives WITHOUT an architecture list - values built by hand (Possibility{Name: n}, Architectures nil) and a substvar
+    # the caller resolved: "an empty list admits everything", so the first alternative is selected
+    nc = []
+    for _ in range(chk.n(60, 600)):
+        names = [b"p%d" % rng.randrange(50) for _ in range(rng.randrange(1, 4))]
+        nc.append(("dpossnil", list(name_to_triple(rng.choice([b"amd64", b"i386", b"hurd-i386", b"armhf"]))) + names))
+    ni = chk.run_impl(nc)
+    chk.record("alternatives-without-an-architecture-list", nc, ni, lambda c, r: r.startswith("["))
+    import re as _re
+    for c, r in zip(nc, ni):
+        parts = r.split(" / ")
+        got = [[bytes.fromhex(h) for h in _re.findall(r"\{ x([0-9a-f]*) ", part)] for part in parts]
+        if got != [[c[1][3]], [b"resolved", b"tail"]]:
+            chk.violate({"kind": "property", "case": lib.show_case(c), "impl": r[:400],
+                         "explanation": "GetPossibilities on alternatives that carry no architecture list (nil) did not select the first alternative of each relation"})
     impl, model = chk.run_both(cases)
     chk.compare("get-possibilities", cases, impl, model, nontrivial=lambda c, r: r.startswith("ok [ "))
     import re
